@@ -8,72 +8,72 @@ Local Open Scope Z_scope.
 (* the property at full strength, for the source variant v: every well-formed
    field, every window *)
 Definition read_matches_spec_statement (v : variant) : Prop :=
-  forall (A : Alg) (db : database) (f : field) (rt : ctype) (s n : Z),
+  forall (A : Alg) (db : database) (lb : Z) (f : field) (rt : ctype) (s n : Z),
     wf db f -> 0 <= s -> 0 <= n ->
-    impl_read A db v rt f s n = Some (spec_window A db rt f s n).
+    impl_read A db v lb rt f s n = Some (spec_window A db lb rt f s n).
 
 Lemma wf_m_ab : wf db_ab m_ab.
 Proof. vm_compute. intuition discriminate. Qed.
 
 (* m MULTIPLY a b, a at 2 samples/frame, b at 1: read 4 from sample 1 (unrepaired code) *)
 Lemma witness_unaligned :
-  impl_read XAlg db_ab v0 F64 m_ab 1 4 =
+  impl_read XAlg db_ab v0 (-1) F64 m_ab 1 4 =
     Some [XV 4626322717216342016; XV 4629137466983448576; XV 4635329916471083008; XV 4636737291354636288] /\
-  spec_window XAlg db_ab F64 m_ab 1 4 =
+  spec_window XAlg db_ab (-1) F64 m_ab 1 4 =
     [XV 4626322717216342016; XV 4633641066610819072; XV 4635329916471083008; XV 4639481672377565184] /\
-  uncovered XAlg db_ab v0 F64 m_ab 1 4 = [TUnaligned].
+  uncovered XAlg db_ab v0 (-1) F64 m_ab 1 4 = [TUnaligned].
 Proof. vm_compute. auto. Qed.
 
 (* the same read with proposed_fixes/C01-2 *)
 Lemma witness_unaligned_repaired :
-  impl_read XAlg db_ab v1 F64 m_ab 1 4 = Some (spec_window XAlg db_ab F64 m_ab 1 4) /\
-  uncovered XAlg db_ab v1 F64 m_ab 1 4 = [].
+  impl_read XAlg db_ab v1 (-1) F64 m_ab 1 4 = Some (spec_window XAlg db_ab (-1) F64 m_ab 1 4) /\
+  uncovered XAlg db_ab v1 (-1) F64 m_ab 1 4 = [].
 Proof. vm_compute. auto. Qed.
 
 Lemma statement_refuted : ~ read_matches_spec_statement v0.
 Proof.
   intro H.
-  pose proof (H XAlg db_ab m_ab F64 1 4 wf_m_ab ltac:(lia) ltac:(lia)) as H0.
+  pose proof (H XAlg db_ab (-1) m_ab F64 1 4 wf_m_ab ltac:(lia) ltac:(lia)) as H0.
   destruct witness_unaligned as (Hi & Hs & _).
   assert (E : Some [XV 4626322717216342016; XV 4629137466983448576; XV 4635329916471083008; XV 4636737291354636288] =
               Some [XV 4626322717216342016; XV 4633641066610819072; XV 4635329916471083008; XV 4639481672377565184]).
-  { transitivity (impl_read XAlg db_ab v0 F64 m_ab 1 4); [symmetry; exact Hi|].
-    transitivity (Some (spec_window XAlg db_ab F64 m_ab 1 4)); [exact H0|]. rewrite Hs. reflexivity. }
+  { transitivity (impl_read XAlg db_ab v0 (-1) F64 m_ab 1 4); [symmetry; exact Hi|].
+    transitivity (Some (spec_window XAlg db_ab (-1) F64 m_ab 1 4)); [exact H0|]. rewrite Hs. reflexivity. }
   clear - E. injection E as E1. discriminate E1.
 Qed.
 
 (* RAW INT16 before its frame offset, read as FLOAT64: 0.0 instead of NaN *)
 Lemma witness_raw_pad :
-  impl_read XAlg db_fo v0 F64 a 2 4 =
+  impl_read XAlg db_fo v0 (-1) F64 a 2 4 =
     Some [XV 0; XV 0; XV 4607182418800017408; XV 4611686018427387904] /\
-  spec_window XAlg db_fo F64 a 2 4 =
+  spec_window XAlg db_fo (-1) F64 a 2 4 =
     [XV 9221120237041090560; XV 9221120237041090560; XV 4607182418800017408; XV 4611686018427387904] /\
-  uncovered XAlg db_fo v0 F64 a 2 4 = [TRawPad] /\
-  impl_read XAlg db_fo v1 F64 a 2 4 = Some (spec_window XAlg db_fo F64 a 2 4).
+  uncovered XAlg db_fo v0 (-1) F64 a 2 4 = [TRawPad] /\
+  impl_read XAlg db_fo v1 (-1) F64 a 2 4 = Some (spec_window XAlg db_fo (-1) F64 a 2 4).
 Proof. vm_compute. auto. Qed.
 
 (* the hypotheses of read_ok are satisfiable on a two-rate field *)
 Lemma covered_example :
-  wf db_ab m_ab /\ covered XAlg db_ab v0 F64 m_ab 2 4 /\
-  impl_read XAlg db_ab v0 F64 m_ab 2 4 =
+  wf db_ab m_ab /\ covered XAlg db_ab v0 (-1) F64 m_ab 2 4 /\
+  impl_read XAlg db_ab v0 (-1) F64 m_ab 2 4 =
     Some [XV 4633641066610819072; XV 4635329916471083008; XV 4639481672377565184; XV 4640537203540230144].
 Proof. split; [exact wf_m_ab|]. vm_compute. auto. Qed.
 
 (* consequences of read_ok *)
-Lemma read_count_ok (A : Alg) db v f rt s n :
-  wf db f -> 0 <= n -> covered A db v rt f s n ->
-  read_count A db v rt f s n = Some (spec_count db f s n).
+Lemma read_count_ok (A : Alg) db v lb f rt s n :
+  wf db f -> 0 <= n -> covered A db v lb rt f s n ->
+  read_count A db v lb rt f s n = Some (spec_count db f s n).
 Proof.
-  intros Hw Hn Hc. unfold read_count. rewrite (read_ok A db v f rt s n Hw Hn Hc). simpl.
+  intros Hw Hn Hc. unfold read_count. rewrite (read_ok A db v lb f rt s n Hw Hn Hc). simpl.
   now rewrite zlen_spec_window.
 Qed.
 
 (* a returned sample is the documented value of its absolute sample number *)
-Lemma read_sample_ok (A : Alg) db v f rt s n i :
-  wf db f -> 0 <= n -> covered A db v rt f s n -> 0 <= i < spec_count db f s n ->
-  option_map (fun l => nthZ l i (garbage A)) (impl_read A db v rt f s n) = Some (spec_val A db rt f (s + i)).
+Lemma read_sample_ok (A : Alg) db v lb f rt s n i :
+  wf db f -> 0 <= n -> covered A db v lb rt f s n -> 0 <= i < spec_count db f s n ->
+  option_map (fun l => nthZ l i (garbage A)) (impl_read A db v lb rt f s n) = Some (spec_val A db lb rt f s (s + i)).
 Proof.
-  intros Hw Hn Hc Hi. rewrite (read_ok A db v f rt s n Hw Hn Hc). simpl. f_equal.
+  intros Hw Hn Hc Hi. rewrite (read_ok A db v lb f rt s n Hw Hn Hc). simpl. f_equal.
   unfold spec_window. now rewrite nthZ_map_zrange.
 Qed.
 
@@ -101,8 +101,8 @@ Fixpoint mplex_free (f : field) : Prop :=
 Definition read_repaired (v : variant) : Prop :=
   v_align v = true /\ v_rawpad v = true /\ v_alloc0 v = true.
 
-Lemma uncovered_repaired (A : Alg) db v f : read_repaired v -> mplex_free f ->
-  forall rt s n, uncovered A db v rt f s n = [].
+Lemma uncovered_repaired (A : Alg) db v lb f : read_repaired v -> mplex_free f ->
+  forall rt s n, uncovered A db v lb rt f s n = [].
 Proof.
   intros (Ha & Hp & Hz). induction f; simpl; intros Hm rt s n.
   - rewrite Hp. simpl. destruct (n <=? 0); reflexivity.
@@ -119,9 +119,9 @@ Proof.
   - tauto.
 Qed.
 
-Lemma read_ok_repaired (A : Alg) db v f rt s n :
+Lemma read_ok_repaired (A : Alg) db v lb f rt s n :
   read_repaired v -> wf db f -> mplex_free f -> 0 <= n ->
-  impl_read A db v rt f s n = Some (spec_window A db rt f s n).
+  impl_read A db v lb rt f s n = Some (spec_window A db lb rt f s n).
 Proof.
   intros Hv Hw Hm Hn. apply read_ok; auto. unfold covered. apply uncovered_repaired; auto.
 Qed.
@@ -135,8 +135,8 @@ Proof. intros H1 H2 t Ht. apply in_app_or in Ht. destruct Ht; auto. Qed.
 Lemma only_rawpad_nil : only_rawpad [].
 Proof. intros t []. Qed.
 
-Lemma uncovered_current (A : Alg) db v f : v_align v = true -> v_alloc0 v = true -> mplex_free f ->
-  forall rt s n, only_rawpad (uncovered A db v rt f s n).
+Lemma uncovered_current (A : Alg) db v lb f : v_align v = true -> v_alloc0 v = true -> mplex_free f ->
+  forall rt s n, only_rawpad (uncovered A db v lb rt f s n).
 Proof.
   intros Ha Hz. induction f; simpl; intros Hm rt s n.
   - destruct (n <=? 0); [apply only_rawpad_nil|]. unfold tag_if.
@@ -159,40 +159,41 @@ Qed.
 (* THE theorem for the frozen tree: for every MPLEX-free field and every window,
    the only way to leave the specification is the native-type padding of a RAW
    leaf (the open finding getdata/raw-bof-pad-native-type) *)
-Lemma read_ok_current (A : Alg) db v f rt s n :
+Lemma read_ok_current (A : Alg) db v lb f rt s n :
   v_align v = true -> v_alloc0 v = true -> wf db f -> mplex_free f -> 0 <= n ->
-  ~ In TRawPad (uncovered A db v rt f s n) ->
-  impl_read A db v rt f s n = Some (spec_window A db rt f s n).
+  ~ In TRawPad (uncovered A db v lb rt f s n) ->
+  impl_read A db v lb rt f s n = Some (spec_window A db lb rt f s n).
 Proof.
   intros Ha Hz Hw Hm Hn Hp. apply read_ok; auto. unfold covered.
-  pose proof (uncovered_current A db v f Ha Hz Hm rt s n) as H.
-  destruct (uncovered A db v rt f s n) as [|t l]; [reflexivity|].
+  pose proof (uncovered_current A db v lb f Ha Hz Hm rt s n) as H.
+  destruct (uncovered A db v lb rt f s n) as [|t l]; [reflexivity|].
   exfalso. apply Hp. rewrite (H t (or_introl eq_refl)). left. reflexivity.
 Qed.
 
 (* sample k does not depend on how the window is split *)
-Lemma spec_window_split (A : Alg) db rt f s a b : 0 <= a -> 0 <= b ->
+Lemma spec_window_split (A : Alg) db lb rt f s a b : 0 <= a -> 0 <= b ->
+  lb < 0 \/ mplexfreeb f = true ->
   spec_count db f s a = a ->
-  spec_window A db rt f s (a + b) = spec_window A db rt f s a ++ spec_window A db rt f (s + a) b.
+  spec_window A db lb rt f s (a + b) = spec_window A db lb rt f s a ++ spec_window A db lb rt f (s + a) b.
 Proof.
-  intros Ha Hb Hfull. unfold spec_window, spec_count in *.
+  intros Ha Hb Hst Hfull. unfold spec_window, spec_count in *.
   assert (Hc : ecount (eof db f) s (a + b) = a + ecount (eof db f) (s + a) b).
   { destruct (eof db f); simpl in *; lia. }
-  rewrite Hc, Hfull. rewrite zrange_app, map_app; [reflexivity|lia|].
-  destruct (eof db f); simpl; lia.
+  rewrite Hc, Hfull. rewrite zrange_app, map_app; [|lia|destruct (eof db f); simpl; lia].
+  f_equal. apply map_ext. intro k. apply (spec_val_start A db lb f Hst).
 Qed.
 
-Lemma window_split (A : Alg) db v f rt s a b X Y :
-  wf db f -> 0 <= a -> 0 <= b ->
-  covered A db v rt f s (a + b) -> covered A db v rt f s a -> covered A db v rt f (s + a) b ->
-  impl_read A db v rt f s a = Some X -> zlen X = a ->
-  impl_read A db v rt f (s + a) b = Some Y ->
-  impl_read A db v rt f s (a + b) = Some (X ++ Y).
+Lemma window_split (A : Alg) db v lb f rt s a b X Y :
+  wf db f -> 0 <= a -> 0 <= b -> lb < 0 \/ mplexfreeb f = true ->
+  covered A db v lb rt f s (a + b) -> covered A db v lb rt f s a -> covered A db v lb rt f (s + a) b ->
+  impl_read A db v lb rt f s a = Some X -> zlen X = a ->
+  impl_read A db v lb rt f (s + a) b = Some Y ->
+  impl_read A db v lb rt f s (a + b) = Some (X ++ Y).
 Proof.
-  intros Hw Ha Hb C1 C2 C3 EX HX EY.
-  rewrite (read_ok A db v f rt s a Hw Ha C2) in EX. injection EX as <-.
-  rewrite (read_ok A db v f rt (s + a) b Hw Hb C3) in EY. injection EY as <-.
-  rewrite (read_ok A db v f rt s (a + b) Hw ltac:(lia) C1). f_equal.
+  intros Hw Ha Hb Hst C1 C2 C3 EX HX EY.
+  rewrite (read_ok A db v lb f rt s a Hw Ha C2) in EX. injection EX as <-.
+  rewrite (read_ok A db v lb f rt (s + a) b Hw Hb C3) in EY. injection EY as <-.
+  rewrite (read_ok A db v lb f rt s (a + b) Hw ltac:(lia) C1). f_equal.
   apply spec_window_split; auto. rewrite zlen_spec_window in HX by auto. exact HX.
 Qed.
 
@@ -201,15 +202,15 @@ Lemma statement_refuted_current : ~ read_matches_spec_statement vc.
 Proof.
   intro H.
   assert (Hw : wf db_fo a) by (vm_compute; intuition discriminate).
-  pose proof (H XAlg db_fo a F64 2 4 Hw ltac:(lia) ltac:(lia)) as H0.
-  assert (Hi : impl_read XAlg db_fo vc F64 a 2 4 = Some [XV 0; XV 0; XV 4607182418800017408; XV 4611686018427387904])
+  pose proof (H XAlg db_fo (-1) a F64 2 4 Hw ltac:(lia) ltac:(lia)) as H0.
+  assert (Hi : impl_read XAlg db_fo vc (-1) F64 a 2 4 = Some [XV 0; XV 0; XV 4607182418800017408; XV 4611686018427387904])
     by (vm_compute; reflexivity).
-  assert (Hs : spec_window XAlg db_fo F64 a 2 4 =
+  assert (Hs : spec_window XAlg db_fo (-1) F64 a 2 4 =
     [XV 9221120237041090560; XV 9221120237041090560; XV 4607182418800017408; XV 4611686018427387904])
     by (vm_compute; reflexivity).
   assert (E : Some [XV 0; XV 0; XV 4607182418800017408; XV 4611686018427387904] =
               Some [XV 9221120237041090560; XV 9221120237041090560; XV 4607182418800017408; XV 4611686018427387904]).
-  { transitivity (impl_read XAlg db_fo vc F64 a 2 4); [symmetry; exact Hi|].
-    transitivity (Some (spec_window XAlg db_fo F64 a 2 4)); [exact H0|]. rewrite Hs. reflexivity. }
+  { transitivity (impl_read XAlg db_fo vc (-1) F64 a 2 4); [symmetry; exact Hi|].
+    transitivity (Some (spec_window XAlg db_fo (-1) F64 a 2 4)); [exact H0|]. rewrite Hs. reflexivity. }
   clear - E. injection E as E1. discriminate E1.
 Qed.
